@@ -9,11 +9,11 @@
          mark <k> | # comment
    The defect flags default to the generated constants (Gen/Consts.v, read
    from the current source); "--flags abcd" (each 0/1 = scheme, utf8,
-   clone allocation, clone NULL host) overrides them. *)
+   clone allocation, clone NULL host, nested bracket) overrides them. *)
 open Nngv_model
 open Conv
 
-let flags = ref { fx_scheme = uRL_FIX_SCHEME_EXACT; fx_utf8 = uRL_FIX_UTF8_ACCUM; fx_clone = uRL_FIX_CLONE_ALLOC; fx_clone_null = uRL_FIX_CLONE_NULL }
+let flags = ref { fx_scheme = uRL_FIX_SCHEME_EXACT; fx_utf8 = uRL_FIX_UTF8_ACCUM; fx_clone = uRL_FIX_CLONE_ALLOC; fx_clone_null = uRL_FIX_CLONE_NULL; fx_bracket = uRL_FIX_BRACKET }
 
 let svc : (string, int option) Hashtbl.t = Hashtbl.create 16
 let need : string list ref = ref []
@@ -55,8 +55,9 @@ let b2i b = if b then 1 else 0
 
 let () =
   (match Array.to_list Sys.argv with
-   | _ :: "--flags" :: f :: _ when String.length f = 4 ->
-       flags := { fx_scheme = f.[0] = '1'; fx_utf8 = f.[1] = '1'; fx_clone = f.[2] = '1'; fx_clone_null = f.[3] = '1' }
+   | _ :: "--flags" :: f :: _ when String.length f = 5 ->
+       flags := { fx_scheme = f.[0] = '1'; fx_utf8 = f.[1] = '1'; fx_clone = f.[2] = '1'; fx_clone_null = f.[3] = '1';
+                  fx_bracket = f.[4] = '1' }
    | _ -> ());
   try
     while true do
